@@ -249,3 +249,22 @@ M("C05", "eof transform removes sample mean", EOFPY, "        projections = xr.d
 M("C05", "whitener rescales by new std", "xeofs/preprocessing/whitener.py", "            transformed = xr.dot(X, self.T, dims=self.feature_name)\n            transformed.name = X.name", "            transformed = xr.dot(X, self.T, dims=self.feature_name)\n            transformed = transformed / X.std(self.sample_name)\n            transformed.name = X.name", "PERSAMPLE")
 B("C05", "unseen path through local alias", BS, "        return self.preprocessor.inverse_transform_scores_unseen(data2D)", "        restore = self.preprocessor.inverse_transform_scores_unseen\n        return restore(data2D)", accept_error=True)
 B("C05", "mask uses reduction along samples", "xeofs/preprocessing/sanitizer.py", "        X_valid_features = self._get_valid_features(X)\n        X_valid_samples", "        X_valid_features = X.notnull().any(self.sample_name)\n        X_valid_samples")
+
+# ---------------------------------------------------------------- C06
+SA = "xeofs/preprocessing/sanitizer.py"
+M("C06", "isolated-NaN raise deleted", SA, "            if isolated_nans.any():\n                raise ValueError(\n                    \"Input data contains partial NaN entries, which will cause the\"\n                    \" the SVD to fail.\"\n                )\n", "", "GUARD.isolated")
+M("C06", "mask comparison raise deleted", SA, "            if not X_valid_features.equals(self.is_valid_feature):\n                raise ValueError(\n                    \"Input data had NaN features in different locations than\"\n                    \" the original data.\"\n                )\n", "", "GUARD.mask")
+M("C06", "mask comparison inverted", SA, "            if not X_valid_features.equals(self.is_valid_feature):", "            if X_valid_features.equals(self.is_valid_feature):", "GUARD.mask")
+M("C06", "drop=True removed", SA, "X = X.where(X_valid_features & X_valid_samples, drop=True)", "X = X.where(X_valid_features & X_valid_samples)", "GUARD.drop")
+M("C06", "samples not dropped", SA, "X = X.where(X_valid_features & X_valid_samples, drop=True)", "X = X.where(X_valid_features, drop=True)", "GUARD.drop")
+M("C06", "isolated check ignores all-valid case", SA, "[0, X_valid_features.sum().values]", "[0]", "GUARD.isolated.predicate")
+M("C06", "guards moved to dead code", SA, "        if self.check_nans:\n            (\n                self.is_valid_feature,", "        if self.check_nans and False:\n            (\n                self.is_valid_feature,", "GUARD", accept_error=True)
+M("C06", "coordinate check dropped", SA, "        # Check if input has the correct coordinates\n        self._check_input_coords(X)\n", "", "GUARD.coords.dominates")
+M("C06", "coordinate check never raises", SA, "        if not X.coords[self.feature_name].identical(self.feature_coords):\n            raise ValueError(\n                \"Cannot transform data. Feature coordinates are different.\"\n            )", "        if not X.coords[self.feature_name].identical(self.feature_coords):\n            pass", "GUARD.coords.raises")
+M("C06", "scores not reinserted", SA, "            return X.reindex({self.sample_name: self.sample_coords.values})", "            return X", "REINSERT.reindex")
+M("C06", "components reindexed to samples", SA, "    def inverse_transform_components(self, X: DataArray) -> DataArray:\n        # Reindex only if feature coordinates are different\n        coords_are_equal = X.coords[self.feature_name].identical(self.feature_coords)\n\n        if coords_are_equal:\n            return X\n        else:\n            return X.reindex({self.feature_name: self.feature_coords.values})",
+  "    def inverse_transform_components(self, X: DataArray) -> DataArray:\n        # Reindex only if feature coordinates are different\n        coords_are_equal = X.coords[self.feature_name].identical(self.feature_coords)\n\n        if coords_are_equal:\n            return X\n        else:\n            return X.reindex({self.feature_name: self.sample_coords.values})", "REINSERT.reindex")
+M("C06", "single scores skip preprocessor", BS, "        return self.preprocessor.inverse_transform_scores(scores)", "        return scores", "REINSERT.reach")
+M("C06", "preprocessor inverse skips sanitizer", "xeofs/preprocessing/preprocessor.py", "        X_it = X.copy()\n        for transformer in self.get_transformers(inverse=True):\n            X_it = transformer.inverse_transform_components(X_it)", "        X_it = X.copy()\n        for transformer in self.get_transformers(inverse=True)[2:]:\n            X_it = transformer.inverse_transform_components(X_it)", "REINSERT.reach", accept_error=True)
+B("C06", "mask comparison via != ", SA, "            if not X_valid_features.equals(self.is_valid_feature):", "            same = X_valid_features.equals(self.is_valid_feature)\n            if not same:")
+B("C06", "rename masks", SA, "X_valid_features_per_sample", "n_valid_per_sample", count=4)
